@@ -5,6 +5,9 @@ from common import *
 
 ALPHA = ["/", ".", "a", "é", "😀", "'", "[", "]"]
 SEPS = ["/", ".", "é", "😀", "€", "a"]
+# characters sharing the UTF-8 lead byte / the trailing bytes with a multi-byte separator
+# (a byte-level search for the separator must not split at them)
+TWINS = {"é": ["è", "©", "Ã"], "😀": ["😁", "☀", "𐀀"], "€": ["→", "¬", "₭"], "/": ["／"], ".": ["．"], "a": ["á"]}
 
 
 def enc(s):
@@ -78,8 +81,14 @@ def gen_cases(rng, tier):
             for sep in ("/", ".", "é", "😀"):
                 add(f"split {ord(sep)} {enc(t)}")
             add(f"jsplit {enc(t)}")
+    # per separator: exhaustive strings over {sep, its byte-level twins, one ASCII char}
+    for sep in SEPS:
+        alpha = [sep] + TWINS[sep] + ["x"]
+        for L in range(1, 5 if tier == "quick" else 6):
+            for tup in itertools.product(alpha, repeat=L):
+                add(f"split {ord(sep)} {enc(''.join(tup))}")
     # random longer strings, all separators
-    pool = ALPHA + ["€", "b", "0", "9", "́", "\U0010ffff", " ", "\x00"]
+    pool = ALPHA + ["€", "b", "0", "9", "́", "\U0010ffff", " ", "\x00"] + sum(TWINS.values(), [])
     for _ in range(3000 if tier == "quick" else 100000):
         t = "".join(rng.choice(pool) for _ in range(rng.randrange(7, 40)))
         add(f"split {ord(rng.choice(SEPS))} {enc(t)}")
